@@ -1471,7 +1471,7 @@ Qed.
    returned value by the declared return type, and every parameter is declared from its signature label. *)
 Theorem function_body_covers :
   forall C fe cur name params body sg fe1 p1 final d orc rho orc1 rho1 tr ret,
-    parse_function_core C fe cur name (mk_fsrc params None body) (Some sg) = Some (fe1, p1, final) ->
+    parse_function_static C fe cur name (mk_fsrc params None body) (Some sg) = Some (fe1, p1, final) ->
     fn_guard (fn_table fe name) (fe_alias fe) C cur params sg body = true ->
     env_lab (d_types (fn_ctx cur params sg)) rho ->
     sig_lookup final (get_or [] (tlookup name (fe_defs fe1))) = Some d ->
@@ -1480,7 +1480,7 @@ Theorem function_body_covers :
     (forall p c, In (p, c) (fd_params d) -> c = cpp_type (tget (d_types (fn_ctx cur params sg)) p)).
 Proof.
   intros C fe cur name params body sg fe1 p1 final d orc rho orc1 rho1 tr ret Hp Hg Hrho Hd Hex.
-  unfold parse_function_core in Hp. cbn [fs_params fs_body fs_ret] in Hp.
+  unfold parse_function_static in Hp. cbn [fs_params fs_body fs_ret] in Hp.
   unfold fn_guard in Hg. apply andb_true_iff in Hg as [Har Hg].
   rewrite Har in Hp. cbn [negb] in Hp.
   fold (fn_table fe name) in Hp. set (F0 := fn_table fe name) in *.
@@ -1568,7 +1568,7 @@ Qed.
 
 Lemma demo_function_nonvacuous :
   exists fe1 d rho1 tr,
-    parse_function_core None fenv0 fresh_cur w_x (mk_fsrc fparams None fbody) (Some fsig) = Some (fe1, None, fsig) /\
+    parse_function_static None fenv0 fresh_cur w_x (mk_fsrc fparams None fbody) (Some fsig) = Some (fe1, None, fsig) /\
     fn_guard (fn_table fenv0 w_x) (fe_alias fenv0) None fresh_cur fparams fsig fbody = true /\
     env_lab (d_types (fn_ctx fresh_cur fparams fsig)) frho /\
     sig_lookup fsig (get_or [] (tlookup w_x (fe_defs fe1))) = Some d /\
